@@ -194,7 +194,7 @@ var (
 
 // AlienTwin returns a certificate with the same issuer and serial as id whose subject key is not an RSA key at
 // all (kind 0: Ed25519, 1: ECDSA P-256, 2: ECDSA P-384). Nothing signed by id's key is valid under it.
-func AlienTwin(id Identity, kind int) (*x509.Certificate, error) {
+func AlienTwin(id Identity, kind int) (cert *x509.Certificate, err error) {
 	alienOnce.Do(func() {
 		seed := make([]byte, ed25519.SeedSize)
 		copy(seed, "verif alien twin key")
@@ -208,6 +208,22 @@ func AlienTwin(id Identity, kind int) (*x509.Certificate, error) {
 		}
 	})
 	kind = ((kind % len(alienPubs)) + len(alienPubs)) % len(alienPubs)
+	ck := fmt.Sprintf("alien%d/%x", kind, id.Cert.Raw)
+	twinMu.Lock()
+	if tw, ok := twinCache[ck]; ok {
+		twinMu.Unlock()
+		return tw.Cert, nil
+	}
+	twinMu.Unlock()
+	defer func() {
+		if cert != nil {
+			twinMu.Lock()
+			if len(twinCache) < 512 {
+				twinCache[ck] = Identity{Key: -1, Cert: cert}
+			}
+			twinMu.Unlock()
+		}
+	}()
 	now := time.Now().UTC().Truncate(time.Hour)
 	tpl := &x509.Certificate{
 		SerialNumber:       id.Cert.SerialNumber,
@@ -262,7 +278,7 @@ func Twin(id Identity, otherKey int) (Identity, error) {
 	}
 	tw := Identity{Key: otherKey, Cert: c}
 	twinMu.Lock()
-	if len(twinCache) < 256 {
+	if len(twinCache) < 512 {
 		twinCache[ck] = tw
 	}
 	twinMu.Unlock()
